@@ -56,3 +56,10 @@ Proof.
     apply (better_trans_false mx x bh b); [now apply Bh|]. apply Hbest. apply in_somes. apply in_flat_map. exists level. split; [exact Hl|].
     apply in_map_iff. exists h. split; [exact Ebh|]. apply filter_In. split; [exact Hh|]. now rewrite Ebh.
 Qed.
+
+(* AbstractDeme.centroid: the mean of the last generation stored — of whatever the history holds NOW, no memo *)
+From HV Require Far.
+Theorem gen_deme_centroid_eq {M} (mean : list Z -> M) mx h : gen_deme_centroid mean mx h = Far.centroid mean (concat h).
+Proof. unfold gen_deme_centroid, Far.centroid, Far.current. now rewrite gen_deme_current_population_eq. Qed.
+Theorem gen_deme_centroid_current {M} (mean : list Z -> M) mx h g : gen_deme_centroid mean mx (h ++ [[g]]) = mean g.
+Proof. rewrite gen_deme_centroid_eq, concat_app. cbn [concat]. rewrite app_nil_r. unfold Far.centroid, Far.current. now rewrite last_last. Qed.
